@@ -467,15 +467,8 @@ func formatPath(path string, checkShebang bool) error {
 		case err != nil:
 			return err // some other read error
 		}
-		shebangLang := fileutil.Shebang(copyBuf[:n])
-		if checkShebang && shebangLang == "" {
+		if checkShebang && fileutil.Shebang(copyBuf[:n]) == "" {
 			return nil // not a shell script
-		}
-		if shebangForAuto {
-			if err := l.Set(shebangLang); err != nil {
-				// Fall back to bash.
-				l = syntax.LangBash
-			}
 		}
 		readBuf.Write(copyBuf[:n])
 	}
@@ -492,6 +485,13 @@ func formatPath(path string, checkShebang bool) error {
 		return err
 	}
 	f.Close()
+	if shebangForAuto {
+		// Look at the entire first line, like when formatting standard input.
+		if err := l.Set(fileutil.Shebang(readBuf.Bytes())); err != nil {
+			// Fall back to bash.
+			l = syntax.LangBash
+		}
+	}
 	return formatBytes(readBuf.Bytes(), path, l)
 }
 
